@@ -20,7 +20,7 @@ import os
 from vlib import core
 
 LEVEL = "model_checking"
-ARCHS = ["mips", "mipsel"]
+ARCHS = ["mips", "mipsel", "ppc"]
 TRACE = "Trace_C06"
 
 
@@ -104,7 +104,7 @@ def run(ctx):
     ctx.build(["c06"])
     mc(ctx)
     q = ctx.quick
-    per_arch = 150 if q else 4000
+    per_arch = 100 if q else 2700
     parts = 2 if q else 8
     jobs = []
     for a in ARCHS:
